@@ -16,20 +16,32 @@ RULE = ('random full-rank rational bases of dimension 1..6 (entries of 4 bits ov
         '(dependent powers: out-of-bounds panic); re-reduction of stored bases (idempotence); plus a malformed stream (empty, ragged, '
         'singular, zero, over-long rows, width mismatches in union, zero / constant / linear f) compared with the model only. '
         'non-trivial = dimension >= 2')
-PROVED = []
-NOT_PROVED = ['all clauses (first version: executable model + correspondence + oracles only)']
+PROVED = ['lcm_den_multiplier / lcm_den_least / lcm_den_invariant [P]: the lcm of the denominators is the least positive d with d*b integral and only depends on the set of such d',
+          'order_canonical [P]: n x n bases b1, b2 with b2 = U b1, b1 = V b2 (U, V integer matrices: same Z-module) have the same from_basis outcome (unconditional: uses the C02 canonicity theorem)',
+          'hnf_reduce_idempotent [P]', 'index_self [P]', 'index_chain [P]: (A:C) = (A:B)(B:C)', 'index_spec [P]: B = S A, A non-singular => index A B = det S',
+          'disc_index [P]: disc B = (A:B)^2 disc A, incl. the integrality assertion',
+          'union_spec [P]: a returned union contains both arguments and is contained in their sum', 'union_comm [P]', 'union_absorbs [P]', 'union_self [P]']
+NOT_PROVED = ['positivity of the index / index = |det| for stored bases (needs det of a lower-triangular stored basis > 0; oracle: index = |det S| > 0 on every case)',
+              'singly_gen_disc: power-basis order of a monic theta has discriminant disc f (oracle on every equation order)',
+              'constructors singly_gen / trivial_order_monic / non_monic_initial_order generate the intended modules (oracle: canonical form + same module on every case)',
+              'totality of from_basis / union on full-rank input (partial correctness: statements carry "= Done r" or equate outcomes)',
+              'the discriminant is an integer whenever the module is an order (needs integrality of the trace form; the code asserts it)',
+              'disc(min_poly) itself: input of the model (see assumptions)']
 ASSUMPTIONS = ['the discriminant of the minimal polynomial (discriminant::discriminant, via resultant) is not modelled here: order_discriminant takes '
                'its value as the argument discf, and the correspondence run hands the model the value the implementation computed '
                '(checked on every case against an independent Sylvester-determinant discriminant); to be wired to coq/Model/Resultant.v',
-               'num::integer::lcm on BigInt taken as Z.lcm (non-negative)']
+               'num::integer::lcm on BigInt taken as Z.lcm (non-negative)',
+               'C02 (HNF canonicity, union, termination) and C18 (determinant = \\det) theorems are used as proved in coq/Refine (merged from main and area/linalg)']
 
 CLAIM = dict(
     technique='Coq proof about the Gallina model of Order (hnf_reduce, index, union, discriminant, constructors) + extracted-model-vs-implementation correspondence',
-    text='The model (coq/Model/Order.v on top of Hnf.v and LinAlg.v) reproduces the routines statement by statement including assertions, '
-         'the explicit panic of index, bounds checks on rank-deficient input and the usize arithmetic of the discriminant; it is tied to '
-         '/repo by running the extracted model and impl_svc on the same constructor paths.',
-    note='first version: no theorem yet; every clause is checked by an independent Fraction oracle on every explored input. '
-         'disc(min_poly) is an input of the model (see assumptions).',
+    text='Theorems in coq/Props/C15.v hold for all n x n rational bases, n >= 1, no size bound: bases of the same Z-module are stored identically (same outcome of '
+         'from_basis), the stored form is a fixed point, index is multiplicative in chains and equals the determinant of the change of basis, disc B = (A:B)^2 disc A, '
+         'union returns a basis of the smallest module containing both arguments, is commutative, idempotent and absorbs sub-modules. The model (coq/Model/Order.v on top '
+         'of Hnf.v and LinAlg.v) reproduces the routines statement by statement including assertions, the explicit panic of index, bounds checks on rank-deficient input '
+         'and the usize arithmetic of the discriminant; it is tied to /repo by running the extracted model and impl_svc on the same constructor paths.',
+    note='disc(min_poly) is an input of the model (see assumptions). Statements are partial-correctness statements or equalities of outcomes; positivity of the index, '
+         'the power-basis discriminant and the modules generated by the constructors are checked by independent Fraction oracles on every explored input.',
     ref='DESIGN.md section 4, C15')
 
 def fr(l): return [F(x) for x in l]
@@ -141,7 +153,7 @@ def lattice_cases(rng, quick):
         out.append(Case('ord_deg', line('ord_deg', B_(M)), nontrivial=False, tag='deg'))
         U = rand_unimodular(rng, n)
         UM = mm(U, M)
-        out.append(Case('ord_eq', line('ord_eq', B_(M), B_(UM)), oracle=o_eq(M, UM), nontrivial=nt, tag='eq:rebased', always_oracle=True))
+        out.append(Case('ord_eq', line('ord_eq', B_(M), B_(UM)), oracle=o_eq(M, UM), nontrivial=nt, tag='eq:rebased'))
         out.append(Case('ord_basis', line('ord_basis', B_(UM)), oracle=o_canon(M), nontrivial=nt, tag=tag, always_oracle=True))
         k = rng.randint(0, 3)
         if k == 0: M2 = [[-x for x in r] if i == 0 else r for i, r in enumerate(M)]
@@ -165,7 +177,7 @@ def lattice_cases(rng, quick):
             A1 = mm(rand_with_det(rng, n, rng.choice([1, 2, 3, 4, 6])), M)
             A2 = mm(rand_with_det(rng, n, rng.choice([1, 2, 3, 5, 9])), M)
             for X, Y, tg in ((A1, A2, 'union'), (A2, A1, 'union:swapped'), (A1, A1, 'union:self'), (M, A1, 'union:nested'), (A1, M, 'union:nested')):
-                out.append(Case('ord_union', line('ord_union', B_(X), B_(Y)), oracle=o_union(X, Y), nontrivial=nt, tag=tg, always_oracle=True))
+                out.append(Case('ord_union', line('ord_union', B_(X), B_(Y)), oracle=o_union(X, Y), nontrivial=nt, tag=tg))
             if t % 4 == 0:
                 M4 = rand_basis(rng, n, bits=3, dens=(1, 2, 5))
                 out.append(Case('ord_union', line('ord_union', B_(M), B_(M4)), oracle=o_union(M, M4), nontrivial=nt, tag='union:unrelated', always_oracle=True))
@@ -173,7 +185,7 @@ def lattice_cases(rng, quick):
     ans = impl_query([line('ord_basis', B_(M)) for M in pre])
     for M, a in zip(pre, ans):
         if a.kind == 'ok':
-            out.append(Case('ord_basis', line('ord_basis', B_(a.val)), oracle=o_same(a.val), nontrivial=len(M) >= 2, tag='basis:idempotent', always_oracle=True))
+            out.append(Case('ord_basis', line('ord_basis', B_(a.val)), oracle=o_same(a.val), nontrivial=len(M) >= 2, tag='basis:idempotent'))
     return out
 
 def order_cases(rng, quick):
